@@ -13,6 +13,7 @@ import (
 	"net"
 	"strconv"
 	"strings"
+	"sync"
 	"time"
 )
 
@@ -31,6 +32,7 @@ type Item struct {
 // RTSP is an RTSP client connection: over TCP, or over WebSocket (one RTSP message per WebSocket message) when ws is set.
 type RTSP struct {
 	ws      *WS
+	wsp     *wspCarrier
 	C       net.Conn
 	br      *bufio.Reader
 	CSeq    int
@@ -63,8 +65,144 @@ func DialRTSPWS(addr, path string) (*RTSP, error) {
 	return &RTSP{ws: w, C: w.C}, nil
 }
 
+// Pending reports whether an item read by the background readers (WSP carrier) waits to be taken.
+func (r *RTSP) Pending() bool { return r.wsp != nil && len(r.wsp.items) > 0 }
+
 // Close closes the connection.
-func (r *RTSP) Close() { r.C.Close() }
+func (r *RTSP) Close() {
+	if r.wsp != nil {
+		r.wsp.ctl.Close()
+		r.wsp.data.Close()
+		return
+	}
+	r.C.Close()
+}
+
+// wspCarrier: RTSP requests wrapped in the WSP control channel (text messages "WSP/1.1 WRAP"), media on the WSP data
+// channel (binary messages, one interleaved frame each).  Both sockets are read by goroutines that feed one queue.
+type wspCarrier struct {
+	ctl, data *WS
+	items     chan Item
+	seq       int
+}
+
+func wspCall(w *WS, seq int, cmd string, hdr map[string]string, body string) error {
+	var b strings.Builder
+	fmt.Fprintf(&b, "WSP/1.1 %s\r\n", cmd)
+	for k, v := range hdr {
+		fmt.Fprintf(&b, "%s: %s\r\n", k, v)
+	}
+	fmt.Fprintf(&b, "seq: %d\r\n\r\n%s", seq, body)
+	return w.WriteMessage(1, []byte(b.String()))
+}
+
+// wspReply parses one WSP reply: status code, headers (lower-cased), body
+func wspReply(p []byte) (int, map[string]string, string, bool) {
+	txt := string(p)
+	i := strings.Index(txt, "\r\n\r\n")
+	if i < 0 || !strings.HasPrefix(txt, "WSP/1.1 ") {
+		return 0, nil, "", false
+	}
+	lines := strings.Split(txt[:i], "\r\n")
+	code := 0
+	fmt.Sscanf(lines[0], "WSP/1.1 %d", &code)
+	h := map[string]string{}
+	for _, l := range lines[1:] {
+		if j := strings.Index(l, ":"); j > 0 {
+			h[strings.ToLower(strings.TrimSpace(l[:j]))] = strings.TrimSpace(l[j+1:])
+		}
+	}
+	return code, h, txt[i+4:], true
+}
+
+func (c *wspCarrier) wrap(rtspRequest string) error {
+	c.seq++
+	return wspCall(c.ctl, c.seq, "WRAP", nil, rtspRequest)
+}
+
+// DialRTSPWSP opens a WSP channel pair on the given URL path (INIT on the control socket, JOIN on the data socket).
+func DialRTSPWSP(addr, path string) (*RTSP, error) {
+	ctl, err := DialWS(addr, path, "control")
+	if err != nil {
+		return nil, err
+	}
+	if ctl.Status != 101 {
+		ctl.Close()
+		return nil, fmt.Errorf("wsp control upgrade refused: %d", ctl.Status)
+	}
+	c := &wspCarrier{ctl: ctl, items: make(chan Item, 1<<14)}
+	c.seq++
+	if err := wspCall(ctl, c.seq, "INIT", map[string]string{"proto": "rtsp", "host": "127.0.0.1", "port": "554"}, ""); err != nil {
+		return nil, err
+	}
+	_, p, err := ctl.ReadMessage(5 * time.Second)
+	if err != nil {
+		return nil, err
+	}
+	code, h, _, ok := wspReply(p)
+	if !ok || code != 200 || h["channel"] == "" {
+		return nil, fmt.Errorf("wsp INIT refused: %d", code)
+	}
+	data, err := DialWS(addr, path, "data")
+	if err != nil || data.Status != 101 {
+		ctl.Close()
+		return nil, fmt.Errorf("wsp data upgrade refused")
+	}
+	c.data = data
+	c.seq++
+	if err := wspCall(data, c.seq, "JOIN", map[string]string{"channel": h["channel"]}, ""); err != nil {
+		return nil, err
+	}
+	if _, p, err = data.ReadMessage(5 * time.Second); err != nil {
+		return nil, err
+	}
+	if code, _, _, ok := wspReply(p); !ok || code != 200 {
+		return nil, fmt.Errorf("wsp JOIN refused: %d", code)
+	}
+	var wg sync.WaitGroup
+	wg.Add(2)
+	go func() { // control socket: every message is a WSP reply whose body is exactly one RTSP response
+		defer wg.Done()
+		for {
+			op, p, err := ctl.ReadMessage(30 * time.Second)
+			if err != nil || op == 8 {
+				return
+			}
+			code, _, body, ok := wspReply(p)
+			if !ok || code != 200 {
+				c.items <- Item{Kind: "torn", Raw: p}
+				continue
+			}
+			if body == "" {
+				continue // reply to a command without payload
+			}
+			it := ParseRTSPMessage([]byte(body))
+			if it.Kind != "response" {
+				it = Item{Kind: "torn", Raw: []byte(body)}
+			}
+			c.items <- it
+		}
+	}()
+	go func() { // data socket: every message is exactly one interleaved frame
+		defer wg.Done()
+		for {
+			op, p, err := data.ReadMessage(30 * time.Second)
+			if err != nil || op == 8 {
+				return
+			}
+			it := ParseRTSPMessage(p)
+			if it.Kind != "frame" {
+				it = Item{Kind: "torn", Raw: p}
+			}
+			select {
+			case c.items <- it:
+			default: // the reader of the items does not keep up with the media: frames are only counted anyway
+			}
+		}
+	}()
+	go func() { wg.Wait(); close(c.items) }()
+	return &RTSP{wsp: c, C: ctl.C}, nil
+}
 
 func md5hex(s string) string { h := md5.Sum([]byte(s)); return hex.EncodeToString(h[:]) }
 
@@ -88,6 +226,9 @@ func (r *RTSP) Send(method, url string, hdr map[string]string, body string) (int
 	}
 	b.WriteString("\r\n")
 	b.WriteString(body)
+	if r.wsp != nil {
+		return r.CSeq, r.wsp.wrap(b.String())
+	}
 	if r.ws != nil {
 		return r.CSeq, r.ws.WriteMessage(2, []byte(b.String()))
 	}
@@ -97,6 +238,17 @@ func (r *RTSP) Send(method, url string, hdr map[string]string, body string) (int
 
 // Read reads exactly one item, strictly: at an item boundary the next byte is '$' or the 'R' of "RTSP/1.0 ".
 func (r *RTSP) Read(timeout time.Duration) Item {
+	if r.wsp != nil {
+		select {
+		case it, ok := <-r.wsp.items:
+			if !ok {
+				return Item{Kind: "eof"}
+			}
+			return it
+		case <-time.After(timeout):
+			return Item{Kind: "timeout"}
+		}
+	}
 	if r.ws != nil { // every WebSocket message must be exactly one response or one frame
 		op, p, err := r.ws.ReadMessage(timeout)
 		if err != nil {
